@@ -17,7 +17,7 @@ INFO = dict(
               'action not cancelled before its rounded deadline ran exactly once at virtual time max(ceil_res(d_i), t_sched_i) '
               '(hence never before d_i and with no further scheduling activity); equal rounded deadlines run in scheduling '
               'order; an action cancelled strictly before that instant never runs; cancelling changes nothing else.',
-  bounds={'quick': 'k=3 actions, <=1 cancel, resolutions 0.01 / 0 / 1', 'thorough': 'k=4 actions, <=2 cancels, resolutions 0.01 / 0 / 1'},
+  bounds={'quick': 'k=3 actions, <=1 cancel, resolutions 0.01 / 0 / 1', 'thorough': 'k=4 actions with <=1 cancel (resolution 0.01); k=3 actions with <=2 cancels for resolutions 0.01 / 0 / 1'},
   outside=['more than k pending actions', 'IEEE-754 rounding of ceil(d/res)*res (time is over exact reals; the one-ulp-early effect is documented in DESIGN.md 7.3)',
            'starvation of the hub (A1)'],
   stubs=['virtual-time loop (3.1)', 'time source = loop clock', 'math.ceil/float/int on symbolic reals as module globals of scales.timer_queue (3.8)'],
@@ -28,18 +28,22 @@ EXPECT_COVERS = ['deadline-in-past', 'new-head-while-sleeping', 'equal-rounded-d
 
 
 def jobs(tier):
-  k = 3 if tier == 'quick' else 4
-  maxc = 1 if tier == 'quick' else 2
-  js = []
   import itertools
-  for res in (0.01, 0, 1):
-    for nc in range(0, maxc + 1):
-      for cset in itertools.combinations(range(k), nc):
-        kk = k if res == 0.01 else max(2, k - 1)
-        if any(c >= kk for c in cset): continue
-        js.append(dict(name='k%d-res%s-c%s' % (kk, res, ''.join(map(str, cset)) or 'none'), k=kk, res=res,
-                       cancels=list(cset), cost=10 ** kk * (3 if cset else 1),
-                       shards=(8 if kk >= 3 else 2) * (2 if cset else 1) * (4 if kk >= 4 else 1), shard_depth=kk))
+  js = []
+  def add(k, res, cset):
+    js.append(dict(name='k%d-res%s-c%s' % (k, res, ''.join(map(str, cset)) or 'none'), k=k, res=res, cancels=list(cset),
+                   cost=10 ** k * (3 if cset else 1), shards=(8 if k >= 3 else 2) * (2 if cset else 1) * (8 if k >= 4 else 1), shard_depth=k))
+  if tier == 'quick':
+    for res, k in ((0.01, 3), (0, 2), (1, 2)):
+      add(k, res, ())
+      for c in range(k): add(k, res, (c,))
+  else:
+    # 4 actions with at most one cancel; 3 actions with every pair of cancels; coarse / no rounding with 3 actions
+    add(4, 0.01, ())
+    for c in range(4): add(4, 0.01, (c,))
+    for res in (0.01, 0, 1):
+      for nc in range(0, 3):
+        for cset in itertools.combinations(range(3), nc): add(3, res, cset)
   return js
 
 
